@@ -258,6 +258,17 @@ func init() {
 		after, _ := os.ReadFile(path)
 		return lerr != nil && serr == nil, fmt.Sprintf("LoadPolicy err=%v; SavePolicy err=%v; file now %q", lerr, serr, string(after))
 	}
+	// D30: a rule whose priority does not parse was a barrier for the priority insertion
+	witnesses["D30-unparsable-priority-barrier"] = func() (bool, string) {
+		text := strings.Replace(strings.Replace(rbacText, "some(where (p.eft == allow))", "priority(p.eft) || deny", 1), "p = sub, obj, act", "p = priority, sub, obj, act, eft", 1)
+		e, _ := casbin.NewEnforcer(mustModel(text))
+		e.AddPolicy("5", "alice", "d", "read", "deny")
+		e.AddPolicy("oops", "bob", "d", "read", "allow")
+		e.AddPolicy("1", "alice", "d", "read", "allow")
+		ok, _ := e.Enforce("alice", "d", "read")
+		p, _ := e.GetPolicy()
+		return !ok, fmt.Sprintf("policy=%v decision=%v (priority 1 = allow must decide)", p, ok)
+	}
 	// D8: ClearPolicy kept role links
 	witnesses["D8-clearpolicy-links"] = func() (bool, string) {
 		e, _ := casbin.NewEnforcer(mustModel(rbacText))
